@@ -170,7 +170,8 @@ def dropSelfAlias : List Tok → List Tok
     if a.kind = .name ∧ b.kind = .colon ∧ c = a then c :: rest else a :: b :: c :: rest
   | ts => ts
 
-/-! ### the nonterminals of both grammars (`c` is the `[Const]` parameter of the specification) -/
+/-! ### the nonterminals of both grammars (`c` is the `[Const]` parameter of the specification;
+    `var` is the specification's `Variable` and `typ` its `Type` — both words are Lean keywords) -/
 
 inductive NT
   -- §2.1 / §2.9 – 2.12: shared by both documents
